@@ -106,7 +106,7 @@ Definition hrow (h : Z) (row : list Z) : Z :=
 Definition ch (i s m : N) : N * key := (i, (s, m)).
 
 Fixpoint run_ops (rbuf : nat) (frames : list (list (list byte))) (st : rstate) (now : Z) (i : N)
-         (h : Z) (ops : list op) (choices : list (N * key)) (hexp : Z) (final : list (list Z)) : bool :=
+         (h : Z) (ops : list op) (choices : list (N * key)) (hexp : Z) (final : list (list Z)) {struct ops} : bool :=
   match ops with
   | [] => check_final st final && (h =? hexp)
   | o :: t =>
